@@ -98,7 +98,8 @@ def r1_once(c, facts):
         arms = P.try_arms(fn, pb, pt)
         start = arms[0] if arms else pt['target']
         for label, suffix in must.items():
-            sites = [b for b, t in P.call_blocks(fn, suffix) if fn.dominates(none_t, b)]
+            # the edge may be added once after the two arms have joined (`let m = match deps.get(..) {..}; add_edge(m, n)`)
+            sites = [b for b, t in P.call_blocks(fn, suffix) if fn.dominates(none_t, b) or (label == 'graph.add_edge' and b in loops)]
             if not sites:
                 c.bad(R, 'unseen-arm-missing:' + label, 'the not-yet-seen arm no longer calls %s' % label)
                 continue
@@ -120,7 +121,7 @@ def r2_edge_agree(c, facts):
     fn = c.anchor(R, L)
     idx = MF.defs_index(fn)
     edges = P.call_blocks(fn, 'add_edge')
-    c.floor(R, 'graph.add_edge sites', len(edges), 2)
+    c.floor(R, 'graph.add_edge sites', len(edges), 1)
     for n, (b, t) in enumerate(edges):
         # a node index is the result of deps.get / graph.add_node (the import) or of the work-list pop (the importer):
         # the slice stops at those calls (what the *key* of the lookup derives from is not the question here)
@@ -301,6 +302,8 @@ def r5_join_agree(c, facts):
         # resolve() hands declare_import its own `loc`
         rs = facts.fn('oal_compiler::resolve::resolve')
         di = facts.fn('oal_compiler::resolve::declare_import')
+        if rs is not None:
+            rs = facts.inlined(rs, keep=('declare_import', 'declare_variable', 'define_variable', 'imports', 'declarations'))
         if rs is not None and di is not None:
             ridx = MF.defs_index(rs)
             okp = False
@@ -351,7 +354,7 @@ def r6_complete(c, facts):
     accessor_complete(c, facts, R, 'oal_syntax::parser::Program::imports', 'import')
     fn = c.anchor(R, L)
     # both consumers use the accessor
-    if P.call_blocks(holder(facts, fn, 'Program::imports'), 'Program::imports') and P.call_blocks(c.anchor(R, 'oal_compiler::resolve::resolve'), 'Program::imports'):
+    if P.call_blocks(holder(facts, fn, 'Program::imports'), 'Program::imports') and any(P.call_blocks(f2, 'Program::imports') for f2 in facts.family(c.anchor(R, 'oal_compiler::resolve::resolve')) if f2.mir):
         c.ok(R, {'loader and resolver': 'both enumerate Program::imports()'})
     else:
         c.bad(R, 'imports-not-from-accessor', 'module::load or resolve() no longer enumerates Program::imports()')
